@@ -96,6 +96,67 @@ Theorem C30_increasing : forall s, reachable true s -> st_wrapped s = false ->
 Proof. exact SequenceProofs.increasing_fixed. Qed.
 Print Assumptions C30_increasing.
 
+(* ---- seq.lock must span the release transaction ----
+   Sequence.v's xstep has the lock explicit: L l are the calls as the code has them (Release and
+   Next hold seq.lock across db.Update), SRelSnap / SRelCall / SRelRet / SRelSet are a Release that
+   locks only around its accesses to seq.next / seq.leased.  For every interleaving of the
+   locked calls the property holds (this is C30_unique_partial etc. read on xexec) ... *)
+Theorem C30_locked_unique_partial : forall fx ls, locked_only ls -> let s := x_s (fst (xexec fx xinit ls)) in
+  st_misuse s = false -> st_wrapped s = false -> forall k, NoDup (nums_of_key s k).
+Proof. exact SequenceProofs.locked_unique. Qed.
+Print Assumptions C30_locked_unique_partial.
+
+Theorem C30_locked_increasing_partial : forall fx ls, locked_only ls -> let s := x_s (fst (xexec fx xinit ls)) in
+  st_misuse s = false -> st_wrapped s = false -> forall i, StronglySorted N.lt (nums_of_obj s i).
+Proof. exact SequenceProofs.locked_increasing. Qed.
+Print Assumptions C30_locked_increasing_partial.
+
+(* the stored lease is at least every number handed out + 1 — at every point of every interleaving,
+   in particular whenever no object holds an unreleased lease (after Release / restart / crash) *)
+Theorem C30_locked_below_stored_partial : forall fx ls, locked_only ls -> let s := x_s (fst (xexec fx xinit ls)) in
+  st_misuse s = false -> st_wrapped s = false ->
+  forall k i n, In (k, i, n) (st_hist s) -> n + 1 <= sval (st_store s k).
+Proof. exact SequenceProofs.locked_below_stored. Qed.
+Print Assumptions C30_locked_below_stored_partial.
+
+(* ... and one Next of the same object between the snapshot and the commit of a split Release
+   breaks it, with no failed lease update involved (st_misuse = false), also for the repaired
+   updateLease (fx = true): the number served from memory is handed out again by the next lease *)
+Definition witness_split (tail : list xlabel) : list xlabel :=
+  [L (GetCall 1 5); L (Ret 0 false); L (NextCall 0); L (NextCall 0)]  (* 0, 1; next = 2, leased = stored = 5 *)
+  ++ [SRelSnap 0; SRelCall 0]       (* snapshot (2, 5); closure: stored = 5 = leased0, writes 2 *)
+  ++ [L (NextCall 0)]               (* Next, served from memory: 2 *)
+  ++ [SRelRet 0 false; SRelSet 0]   (* stored := 2; leased := next = 3 *)
+  ++ tail.
+Definition split_same_object := witness_split [L (NextCall 0); L (Ret 0 false)].
+Definition split_second_object := witness_split [L (GetCall 1 3); L (Ret 1 false); L (NextCall 1)].
+Definition split_after_restart := witness_split [L Restart; L (GetCall 1 3); L (Ret 1 false); L (NextCall 1)].
+
+Theorem C30_split_release_refuted : forall fx, exists ls, let s := x_s (fst (xexec fx xinit ls)) in
+  st_misuse s = false /\ st_wrapped s = false /\ ~ NoDup (nums_of_key s 1).
+Proof.
+  intros fx. exists split_same_object.
+  destruct fx; (split; [vm_compute; reflexivity|split; [vm_compute; reflexivity|]]);
+    apply SequenceProofs.has_dupb_not_nodup; vm_compute; reflexivity.
+Qed.
+Print Assumptions C30_split_release_refuted.
+
+Theorem C30_split_release_refuted_traces :
+  snd (xexec false xinit split_same_object)
+  = [RPending; ROk; RNum 0; RNum 1; RPending; RPending; RNum 2; RPending; ROk; RPending; RNum 2]
+  /\ nums_of_key (x_s (fst (xexec false xinit split_second_object))) 1 = [0; 1; 2; 2]
+  /\ nums_of_key (x_s (fst (xexec false xinit split_after_restart))) 1 = [0; 1; 2; 2].
+Proof. vm_compute. repeat split; reflexivity. Qed.
+Print Assumptions C30_split_release_refuted_traces.
+
+(* the same calls with the locked Release: the Next in the window is not enabled (RInvalid: it waits
+   for seq.lock), runs after the Release and starts a new lease *)
+Example C30_locked_release_ex :
+  let ls := [GetCall 1 5; Ret 0 false; NextCall 0; NextCall 0; RelCall 0; NextCall 0; Ret 0 false;
+             NextCall 0; Ret 0 false; NextCall 0] in
+  snd (exec false init ls) = [RPending; ROk; RNum 0; RNum 1; RPending; RInvalid; ROk; RPending; RNum 2; RNum 3].
+Proof. vm_compute. reflexivity. Qed.
+
 (* ---- the hypotheses are satisfiable: a run with two objects, conflict, release, restart ---- *)
 Example C30_safe_run_ex :
   let ls := [GetCall 1 3; Ret 0 false; GetCall 1 2; Ret 1 false; NextCall 0; NextCall 1; NextCall 0; NextCall 1;
